@@ -324,6 +324,28 @@ pub fn gen_history(r: &mut Rng) -> Gen {
         let len = *r.pick(&[0usize, 1, 2, 4, 16, 20, 32, 64]);
         entries.push((a, (0..len).map(|_| r.below(256) as u8).collect()));
     }
+    // siblings: names that share a long prefix with a name already drawn and differ in the
+    // last character only, with the common prefix ending inside a multi-byte character at
+    // byte 8 or 16 (comparators that look at a fixed-size head first)
+    if !entries.is_empty() && r.chance(1, 4) {
+        let base = entries[r.below(entries.len())].0.clone();
+        let mut stem: String = base.chars().filter(|c| c.is_ascii_lowercase() || c.is_ascii_digit()).take(15).collect();
+        let head = *r.pick(&[7usize, 8, 15]);
+        while stem.len() < head {
+            stem.push(*r.pick(b"abcxyz012") as char);
+        }
+        stem.truncate(head);
+        let stem = format!("{stem}{}", r.pick(&["é", "中", "😀", "", "\0"]));
+        for tail in ["1", "2", "", "\0", "10"] {
+            let a = format!("{stem}{tail}");
+            if a.contains(',') || entries.iter().any(|(x, _)| lower(x) == lower(&a)) {
+                continue;
+            }
+            if r.coin() {
+                entries.push((a, vec![r.below(256) as u8]));
+            }
+        }
+    }
     let mut g = Gen { ops: vec![], replaced: false, removed: false, non_ascii_variant: false };
     for (a, b) in &entries {
         // sometimes insert an earlier value under another letter case first (must be replaced)
